@@ -1,5 +1,5 @@
 (* C18/Witness.v — non-vacuity of the hypotheses used in Properties.v and concrete evaluations. *)
-From Verif Require Import Common.Base Generated.MemLimiter18 C18.Model C18.Proofs C18.ProofsSys C18.ProofsFine C18.ProofsTotal C18.Harness C18.Clauses.
+From Verif Require Import Common.Base Generated.MemLimiter18 C18.Model C18.Proofs C18.ProofsSys C18.ProofsFine C18.ProofsTotal C18.Harness C18.Clauses C18.ClausesSound2.
 From Coq Require Import String.
 Local Open Scope Z_scope.
 
@@ -231,3 +231,26 @@ Proof. vm_compute. repeat split; reflexivity. Qed.
 
 Example ex_before_first_check : checks_of [GConsume 0 1 None; GExtMustRefuse; GConsume 3 2 (Some 4)] = [].
 Proof. reflexivity. Qed.
+
+(* the link theorems are not vacuous: a limiter is built, the held checks of fine_ops are uniform?
+   (fine_ops uses t_r1 <> t_r2, so a uniform script is given here), and the checker really
+   evaluates the model's observation (true) and rejects a corrupted one *)
+Definition fine_uniform_ops : list fop :=
+  [ FStart; FBegin (mkTick 0 0 90000000 90000000); FQuery; FShutdown; FQuery; FBegin (mkTick 0 0 5 5); FEnd ].
+
+Example ex_link_hyps :
+  new_limiter cfg_fixed None = Some lim_fixed /\ Forall uniform_op fine_uniform_ops /\ config_in_range cfg_fixed.
+Proof.
+  split; [vm_compute; reflexivity|]. split; [repeat constructor|].
+  unfold config_in_range, cfg_fixed, U32; cbn; lia.
+Qed.
+
+Example ex_link_eval :
+  prop_ok (CFine cfg_fixed None fine_uniform_ops (snd (frun lim_fixed (fsys0 0) fine_uniform_ops))) = true /\
+  snd (frun lim_fixed (fsys0 0) fine_uniform_ops) =
+    [FLifeRes false None; FBegun; FQueried false; FLifeRes false (Some true); FQueried true; FNotBegun; FNoEnd] /\
+  prop_ok (CFine cfg_fixed None fine_uniform_ops
+             [FLifeRes false None; FBegun; FQueried false; FLifeRes false None; FQueried true; FNotBegun; FNoEnd]) = false /\
+  prop_ok (CShare [(7, true); (7, true); (9, true)]%nat [Some 0; Some 1; Some 1]%nat) = false /\
+  prop_ok (CConfig cfg_fixed None 0 2 (Some (104857600, 20971521))) = false.
+Proof. vm_compute. repeat split; reflexivity. Qed.
